@@ -236,6 +236,37 @@ def rule_b3(R, ctx, rid="C02.b3"):
              "stashed under %s; queue from store.clients: %s, from latest: %s" % (sshow(simp_deep(v.arg(cs, 1, 12)), 5), from_store, from_latest), cs.loc())
 
 
+def rule_b4(R, ctx, rid="C02.b4"):
+    Y = ctx.yrs
+    fn = Y.fn("yrs::update::BlockPicker::next")
+    v = FnView(fn)
+    R.rule(rid, "R-ANSWER the block picker ends only when every client's queue was visited: in BlockPicker::next (the iteration "
+                "Update::integrate walks an incoming update with) the answer `None` by early return (`?`) is given only for the "
+                "exhaustion of the client list — `self.clients.pop()` — and the queue of the popped client may be absent (it was "
+                "stashed by switch as part of a cross-client dependency chain) without ending the walk: the picker moves on to the "
+                "next client. Any other `?` in the function drops the blocks of every client still queued, neither integrated nor "
+                "stashed")
+    fr = [c for c in fn.calls() if re.search(r"FromResidual(<.*>)?>?::from_residual$", c.name) and c.dest == 0]
+    R.floor(rid, "early returns in BlockPicker::next", len(fr), 1)
+    for cs, site in ordinal_sites(fr):
+        a = simp_deep(v.arg(cs, 0, 12))
+        # the value whose absence ends the walk: the subject of the Try::branch behind this residual
+        subj = None
+        for x in walk(a):
+            if x[0] == "call" and re.search(r"Try>?::branch$", x[1]) and x[2]:
+                subj = simp_deep(x[2][0])
+                break
+        from_clients = subj is not None and subj[0] == "call" and re.search(r"(SmallVec|Vec)(<.*>)?::pop$", F.strip_generics(subj[1])) is not None and \
+            term_has_field(simp_deep(subj[2][0]), "BlockPicker.clients") and not term_has_call(simp_deep(subj[2][0]), "re:::remove")
+        R.ob(rid, fn, "ends-on:" + site, from_clients, "the walk ends on the exhaustion of the client list" if from_clients else
+             "the walk also ends (`?`) on %s: the queues of the clients not yet visited are dropped" % sshow(a, 5), cs.loc())
+    rec = fn.calls_to("yrs::update::BlockPicker::next")
+    rm = [c for c in fn.calls() if re.search(r"HashMap(<.*>)?::remove_entry$", F.strip_generics(c.name))]
+    ok = bool(rec) and bool(rm) and all(fn.cfg().dominates(c.bb, r.bb) for c in rm for r in rec) and \
+        not any(simp(l.term)[0] == "call" and "remove_entry" in simp(l.term)[1] for r in rec for l in v.guards(r.bb))
+    R.ob(rid, fn, "moves-on", ok, "after taking the popped client's queue (present or not) the picker continues with next(): %s" % ok)
+
+
 SV_MUTATORS = ("re:^yrs::state_vector::StateVector::(set_min|set_max|inc_by|insert|remove|merge|set)$",
                "re:^std::collections::HashMap::(insert|remove|entry|get_mut|clear)$")
 
@@ -573,6 +604,7 @@ def check(ctx, R):
     R.run("C02.b", rule_b, ctx)
     R.run("C02.b2", rule_b2, ctx)
     R.run("C02.b3", rule_b3, ctx)
+    R.run("C02.b4", rule_b4, ctx)
     R.run("C02.c", rule_c, ctx)
     R.run("C02.d", rule_d, ctx)
     R.run("C02.f", rule_f, ctx)
